@@ -25,7 +25,7 @@ nv=$(grep -c '^VIOLATION' /tmp/seedchk_$name.check.out)
 echo "seed=$name prop=$prop suite_failures=$suite demo_with_change_rc=$with_rc demo_without_rc=$without_rc check_rc=$chk violations=$nv"
 grep '^VIOLATION' /tmp/seedchk_$name.check.out | head -2 | cut -c1-260
 mkdir -p /verif/seeded/$name
-cp $src/* /verif/seeded/$name/ 2>/dev/null
+[ "$src" = "/verif/seeded/$name" ] || cp $src/* /verif/seeded/$name/ 2>/dev/null
 python3 - <<PY
 import json
 p='/verif/seeded/$name/meta.json'
